@@ -510,6 +510,22 @@ _stubs.MODULE_STUBS[("skactiveml.pool._typi_clust", "_typicality")] = _typicalit
 _stubs.MODULE_STUBS[("skactiveml.pool._bald", "_DynamicJointEntropy")] = _JointEntropyStub
 _stubs.MODULE_STUBS[("skactiveml.pool._bald", "_compute_conditional_entropy")] = _cond_entropy_stub
 
-for _a in (AQBC(), ACoreSet(), AGreedyX(), ADiscriminative(True), ADiscriminative(False), ATypiClust(), ABald(True),
+class AFalcun(Adapter):
+    name = "Falcun[gamma=1]"
+    slow = True
+    needs_clf = True
+    selection = "proportional"
+    product_abstraction = True
+    units = ["skactiveml.pool._falcun:Falcun.query", "skactiveml.pool._uncertainty_sampling:uncertainty_scores"]
+
+    def make(self, seed, sym=True, inputs=None, **kw):
+        return pool().Falcun(gamma=1, random_state=seed, **kw)
+
+    def call(self, qs, s, b, sym, table=None, return_utilities=True):
+        return qs.query(s.X, s.y, self.clf(sym, table, s.K), candidates=s.cand, batch_size=b,
+                        return_utilities=return_utilities)
+
+
+for _a in (AFalcun(), AQBC(), ACoreSet(), AGreedyX(), ADiscriminative(True), ADiscriminative(False), ATypiClust(), ABald(True),
            ABald(False)):
     register(_a)
